@@ -40,10 +40,15 @@ from ._agga import eps_of, fail, min_norm_enum, sigma_max, small, to64
 RULE = ("(UPGrad | DualProj with pref vectors and (norm_eps, reg_eps) pairs | MGDA with epsilon in {0, 1e-3} and "
         "max_iters in {1,2,5,20,100,1000} | CAGrad with c in {1, 1.5, 3, 10}) x matrix family (all ternary matrices up "
         "to 3x3; random strongly conflicting = antiparallel / stationary, rank-deficient, badly scaled rows over 12 "
-        "decades, duplicates, zero rows) x scale x dtype; oracle = entry-wise lower bound of J.A(J) by the stated "
+        "decades, duplicates, zero rows, imbalanced Pareto-stationary) x scale x dtype, the scale log-uniform over "
+        "many decades for EVERY aggregator in both dtypes (MGDA, which has no norm_eps: 1e-9..1e9 in float32, 1e-30..1e30 "
+        "in float64; the others from norm_eps/10 upwards: everything in the code must be relative to s) + a 'rate' "
+        "family: MGDA(epsilon=0, max_iters in {100,1000,3000}) on stationary / imbalanced-stationary / antiparallel "
+        "matrices at those scales, where the mean violates the rate bound; oracle = entry-wise lower bound of J.A(J) by the stated "
         "allowance, min-norm point by support enumeration. distinct = (aggregator spec, matrix spec); non-trivial = "
         "s >= norm_eps, m >= 2 and some pair of rows has a negative inner product")
-BOUNDS = "m <= 6, n <= 8 (random part), scale 1e-3..1e6; ternary part m, n <= 3"
+BOUNDS = ("m <= 6, n <= 8 (random part), scale 1e-9..1e9 (float32: s^2 and the 12-decade row scalings stay in the normal "
+          "range) resp. 1e-30..1e30 (float64); ternary part m, n <= 3")
 EXHAUSTIVE = ("thorough: all 21 297 matrices with entries in {-1,0,1} and m, n <= 3, each under UPGrad, DualProj, MGDA, "
               "CAGrad(c=1) (85 188 cases); quick: all 2x2 and a seeded sample of 400 of the others")
 
@@ -74,6 +79,17 @@ def _rand_agg(rng, dtype, i):
     return {"name": "CAGrad", "c": rng.choice([1.0, 1.0, 1.5, 3.0, 10.0]), "norm_eps": rng.choice([1e-4, 1e-6])}
 
 
+WIDE = {"float32": 9.0, "float64": 30.0}  # |log10 scale|: (scale * 1e6)^2 * n stays a normal float32 number
+
+
+def _wide_exp(rng, dtype, spec):
+    """log10 of a scale drawn log-uniformly over the decades the dtype can carry; aggregators with a norm_eps start a
+    decade below it (smaller matrices are outside the statement)."""
+    hi = WIDE[dtype]
+    lo = -hi if spec["name"] == "MGDA" else math.log10(spec.get("norm_eps", 1e-4)) - 1.0
+    return rng.uniform(lo, hi)
+
+
 def cases(tier, seed, focus=None):
     rng = random.Random(4000 + seed)
     out = []
@@ -98,13 +114,26 @@ def cases(tier, seed, focus=None):
         if kind == "wellcond" and m > n:
             kind = "gauss"
         mat = {"kind": kind, "m": m, "n": n, "seed": rng.randrange(10**6), "dtype": dtype,
-               "scale": 10.0 ** rng.choice([0.0, rng.uniform(-3, 6), rng.uniform(-3, 6)])}
+               "scale": 10.0 ** rng.choice([0.0, rng.uniform(-3, 6), _wide_exp(rng, dtype, spec)])}
         if kind == "lowrank":
             mat["rank"] = rng.randint(1, max(1, min(m, n) - 1))
         if kind == "ternary":
             mat["code"] = rng.randrange(3 ** (m * n))
         if kind == "rowscales":
             mat["decades"] = rng.choice([4, 12])
+        out.append({"agg": spec, "mat": mat})
+    # ---- rate part: the Frank-Wolfe bound is tight only for a large budget on matrices whose mean is far from the
+    # min-norm point; it must hold at every scale (nothing in the solver may be absolute)
+    n_rate = 160 if tier == "quick" else 3000
+    for i in range(n_rate):
+        dtype = "float32" if i % 2 else "float64"
+        spec = {"name": "MGDA", "epsilon": 0.0, "max_iters": rng.choice([100, 1000, 1000, 3000])}
+        m, n = rng.randint(2, 6), rng.randint(2, 8)
+        kind = rng.choice(["stationary", "imbstationary", "imbstationary", "antiparallel"])
+        mat = {"kind": kind, "m": m, "n": n, "seed": rng.randrange(10**6), "dtype": dtype,
+               "scale": 10.0 ** _wide_exp(rng, dtype, spec)}
+        if kind == "imbstationary":
+            mat["decades"] = rng.choice([0.5, 1.0, 1.5, 2.0])
         out.append({"agg": spec, "mat": mat})
     return out
 
